@@ -1,7 +1,390 @@
-From Coq Require Import ZArith Bool List Reals.
-From Hy Require Import Base.Num Gen.Consts Gen.ConstsC10 Model.Dscore Proofs.DscoreProofs.
+(* C10 - rank- and PIT-based forecast diagnostics depend only on ranks and stay
+   in range.  Statements only; every proof is `exact <lemma of Proofs/Dscore*.v>`.
+   Real-number instance RR/KR of Model/Dscore.v (RN/KN = reals with an explicit
+   NaN for the input checks of ADtest); constants come from Gen/ConstsC10.v. *)
+From Coq Require Import PrimFloat.
+From Coq Require Import ZArith Bool List Reals Permutation Sorted.
+From Hy Require Import Base.Num Gen.Consts Gen.ConstsC10 Model.Dscore
+  Proofs.DscoreProofs Proofs.DscoreStatProofs Proofs.DscoreADProofs Proofs.DscoreRankProofs
+  Proofs.DscoreExamples.
 Import ListNotations.
 Open Scope R_scope.
-Theorem C10_stub : 0 <= 1.
-Proof. exact stub. Qed.
-Print Assumptions C10_stub.
+
+(* ------------------------------------------------------------------ *)
+(* discrimination score                                                *)
+
+(* Cauchy-Schwarz for lists of any lengths *)
+
+(* To keep the compilation of this file short (each Print Assumptions walks the
+   whole real-number library) related statements are bundled as conjunctions;
+   every conjunct is a complete statement with its own quantifiers. *)
+
+Theorem C10_dscore_range :
+  (* cauchy_schwarz *)
+  (forall a b : list R,
+  sdot a b * sdot a b <= sdot a a * sdot b b) /\
+  (* the score lies in [0,1] for every number of forecasts n >= 2, every ensemble
+     size, every tie tolerance - whenever the rank correlation is defined (both
+     rank vectors non-constant); numpy's clip never acts over the reals *)
+  (* dscore_in_unit *)
+  (forall eps obs sim,
+  let oranks := map IZR (argsort_ranks RR obs) in
+  let franks := forecast_ranks RR KR eps sim in
+  (2 <= length obs)%nat ->
+  0 < sdot (centred RR oranks) (centred RR oranks) ->
+  0 < sdot (centred RR franks) (centred RR franks) ->
+  0 <= dscore RR KR eps obs sim <= 1) /\
+  (* dscore_of_ranks_in_unit *)
+  (forall oranks franks : list R,
+  (2 <= length oranks)%nat ->
+  0 < sdot (centred RR oranks) (centred RR oranks) ->
+  0 < sdot (centred RR franks) (centred RR franks) ->
+  0 <= dscore_of_ranks RR KR oranks franks <= 1 /\
+  dscore_of_ranks RR KR oranks franks = (corr_raw RR oranks franks + 1) / 2).
+Proof. exact (conj cauchy_schwarz (conj dscore_in_unit dscore_of_ranks_in_unit)). Qed.
+Print Assumptions C10_dscore_range.
+
+Theorem C10_dscore_extremes :
+  (* D = 1 when the forecast ranks are the observation ranks up to a shift
+     (perfect ordering: the kernel's ranks start at 1, argsort's at 0);
+     D = 0 when they are reversed *)
+  (* dscore_perfect_order *)
+  (forall oranks c,
+  (2 <= length oranks)%nat -> 0 < sdot (centred RR oranks) (centred RR oranks) ->
+  dscore_of_ranks RR KR oranks (map (fun v => v + c) oranks) = 1) /\
+  (* dscore_inverse_order *)
+  (forall oranks c,
+  (2 <= length oranks)%nat -> 0 < sdot (centred RR oranks) (centred RR oranks) ->
+  dscore_of_ranks RR KR oranks (map (fun v => c - v) oranks) = 0).
+Proof. exact (conj dscore_of_ranks_perfect dscore_of_ranks_inverse). Qed.
+Print Assumptions C10_dscore_extremes.
+
+Theorem C10_F_is_midrank :
+  (* ------------------------------------------------------------------ *)
+  (* ensemble ranks: the comparison F of c_ensrank (repaired scan) equals the
+     pairwise mid-rank comparison of Weigel and Mason (2011) - every ensemble
+     size, every tie pattern inside and across the two ensembles, provided any
+     two pooled values are equal or farther apart than both tolerances *)
+  (* F_is_midrank *)
+  (forall eps e1 e2,
+  0 < eps -> e1 <> [] -> separated eps (e1 ++ e2) ->
+  pairF RR KR eps e1 e2 = wm_sum e1 e2 / (INR (length e1) * INR (length e1))) /\
+  (* sumrank_is_midrank_sum *)
+  (forall eps e1 e2,
+  0 < eps -> separated eps (e1 ++ e2) ->
+  sumrank RR KR eps e1 e2 = wm_sum e1 e2 + INR (length e1) * (INR (length e1) + 1) / 2).
+Proof. exact (conj F_is_midrank sumrank_is_midrank). Qed.
+Print Assumptions C10_F_is_midrank.
+
+Theorem C10_F_range_and_symmetry :
+  (* F_in_unit *)
+  (forall eps e1 e2,
+  0 < eps -> e1 <> [] -> length e2 = length e1 -> separated eps (e1 ++ e2) ->
+  0 <= pairF RR KR eps e1 e2 <= 1) /\
+  (* F_antisym *)
+  (forall eps e1 e2,
+  0 < eps -> e1 <> [] -> length e2 = length e1 -> separated eps (e1 ++ e2) ->
+  pairF RR KR eps e2 e1 = 1 - pairF RR KR eps e1 e2) /\
+  (* completely separated ensembles: F = 1 / 0, hence u = 1 / 0 *)
+  (* F_all_above *)
+  (forall eps e1 e2,
+  0 < eps -> e1 <> [] -> length e2 = length e1 -> separated eps (e1 ++ e2) ->
+  (forall a b, In a e1 -> In b e2 -> b < a) ->
+  pairF RR KR eps e1 e2 = 1 /\ pairF RR KR eps e2 e1 = 0).
+Proof. exact (conj F_in_unit (conj F_antisym F_all_above)). Qed.
+Print Assumptions C10_F_range_and_symmetry.
+
+Theorem C10_F_invariances :
+  (* unchanged by a strictly increasing re-scaling of all forecast values *)
+  (* F_increasing_map_invariant *)
+  (forall eps eps' (g : R -> R) e1 e2,
+  0 < eps -> 0 < eps' -> e1 <> [] ->
+  (forall x y, x < y -> g x < g y) ->
+  separated eps (e1 ++ e2) -> separated eps' (map g e1 ++ map g e2) ->
+  pairF RR KR eps' (map g e1) (map g e2) = pairF RR KR eps e1 e2) /\
+  (* unchanged by permuting ensemble members *)
+  (* F_member_permutation_invariant *)
+  (forall eps e1 e1' e2 e2',
+  0 < eps -> e1 <> [] -> Permutation e1 e1' -> Permutation e2 e2' ->
+  separated eps (e1 ++ e2) ->
+  pairF RR KR eps e1' e2' = pairF RR KR eps e1 e2).
+Proof. exact (conj F_increasing_map_invariant F_member_permutation_invariant). Qed.
+Print Assumptions C10_F_invariances.
+
+Theorem C10_u_of_F :
+  (* u_of_F_values *)
+  (forall F,
+  (F = 1 -> u_of_F RR KR F = 1) /\ (F = 0 -> u_of_F RR KR F = 0) /\
+  (F = 1 / 2 -> u_of_F RR KR F = 1 / 2)) /\
+  (* the thresholds 1/2 -+ 1e-8 of the kernel separate F = 1/2 from every other
+     attainable value as long as 2e-8 m^2 < 1 (m <= 7071 members) *)
+  (* u_of_F_is_sign *)
+  (forall eps e1 e2,
+  0 < eps -> e1 <> [] -> separated eps (e1 ++ e2) ->
+  INR (length e1) * INR (length e1) * (2 * k_u_lo_tol KR) < 1 ->
+  (exists k : Z, 2 * wm_sum e1 e2 = IZR k) ->
+  let F := pairF RR KR eps e1 e2 in
+  u_of_F RR KR F = (if Rltb F (1/2) then 0 else if Rltb (1/2) F then 1 else 1/2)) /\
+  (* wm_sum_half_integer *)
+  (forall e1 e2, exists k : Z, 2 * wm_sum e1 e2 = IZR k).
+Proof. exact (conj u_of_F_values (conj u_of_F_is_sign wm_sum_half_integer)). Qed.
+Print Assumptions C10_u_of_F.
+
+(* ranks returned by the kernel: 1 + the increments accumulated over the pairs
+   (u for the first ensemble of a pair, 1-u for the second), for every number
+   of forecasts; for rows ordered like a list of distinct keys the rank is
+   1 + the number of smaller keys *)
+Theorem C10_ensemble_ranks :
+  (* ensrank_ranks *)
+  (forall eps sim fs ranks,
+     ensrank RR KR eps sim = EnsOk fs ranks ->
+     ranks = map (fun d => 1 + d) (delta eps sim)) /\
+  (* delta_ordered *)
+  (forall eps m ks,
+     0 < eps -> (1 <= m)%nat -> NoDup (map fst ks) -> ordered_rows eps m ks ->
+     delta eps (map snd ks) =
+     map (fun a => cntR (fun b : R * list R => Rltb (fst b) (fst a)) ks) ks) /\
+  (* argsort_ranks_distinct: argsort(argsort(x)) of distinct values *)
+  (forall obs, NoDup obs ->
+     map IZR (argsort_ranks RR obs) = map (fun x => cntR (fun y => Rltb y x) obs) obs).
+Proof. exact (conj ensrank_ranks (conj delta_ordered argsort_ranks_distinct)). Qed.
+Print Assumptions C10_ensemble_ranks.
+
+(* end to end: D = 1 when the forecasts order the (distinct) observations
+   perfectly - every member of the forecast of a larger observation above every
+   member of the forecast of a smaller one - and D = 0 when they order them
+   inversely; any number n >= 2 of forecasts, any ensemble size m >= 2 through
+   the kernel, single-member forecasts through argsort *)
+Theorem C10_dscore_perfect_and_inverse_order :
+  (* dscore_perfect_order *)
+  (forall eps obs sim m,
+     0 < eps -> nltb RR eps (k_eps_min KR) = false ->
+     (2 <= length obs)%nat -> length sim = length obs -> NoDup obs -> (2 <= m)%nat ->
+     ordered_rows eps m (combine obs sim) ->
+     dscore RR KR eps obs sim = 1) /\
+  (* dscore_inverse_order *)
+  (forall eps obs sim m,
+     0 < eps -> nltb RR eps (k_eps_min KR) = false ->
+     (2 <= length obs)%nat -> length sim = length obs -> NoDup obs -> (2 <= m)%nat ->
+     ordered_rows eps m (combine (map Ropp obs) sim) ->
+     dscore RR KR eps obs sim = 0) /\
+  (* dscore_perfect_order_single *)
+  (forall eps obs fc,
+     (2 <= length obs)%nat -> length fc = length obs -> NoDup obs -> NoDup fc ->
+     (forall a b, In a (combine obs fc) -> In b (combine obs fc) -> fst b < fst a -> snd b < snd a) ->
+     dscore RR KR eps obs (map (fun x => [x]) fc) = 1).
+Proof. exact (conj dscore_perfect_order (conj dscore_inverse_order dscore_perfect_order_single)). Qed.
+Print Assumptions C10_dscore_perfect_and_inverse_order.
+
+Example C10_ordered_rows_nonvacuous :
+  (0 < 1 / 1000000 /\ nltb RR (1 / 1000000) (k_eps_min KR) = false /\
+   (2 <= length [1; 2])%nat /\ length [[1; 2]; [3; 4]] = length [1; 2] /\ NoDup [1; 2] /\ (2 <= 2)%nat /\
+   ordered_rows (1 / 1000000) 2 (combine [1; 2] [[1; 2]; [3; 4]]) /\
+   ordered_rows (1 / 1000000) 2 (combine (map Ropp [1; 2]) [[3; 4]; [1; 2]])) /\
+  ((2 <= length [1; 3; 2])%nat /\ length [10; 30; 20] = length [1; 3; 2] /\
+   NoDup [1; 3; 2] /\ NoDup [10; 30; 20] /\
+   (forall a b, In a (combine [1; 3; 2] [10; 30; 20]) -> In b (combine [1; 3; 2] [10; 30; 20]) ->
+                fst b < fst a -> snd b < snd a)).
+Proof. exact (conj ordered_rows_example single_member_example). Qed.
+Print Assumptions C10_ordered_rows_nonvacuous.
+
+Theorem C10_pit_random :
+  (* ------------------------------------------------------------------ *)
+  (* PIT                                                                 *)
+  
+  (* random=True: (count + 1/2 - cst)/(1 - cst + m), cst capped at 1/2 *)
+  (* pit_random_in_unit *)
+  (forall cst o dob e de,
+  0 <= pit_random RR KR cst o dob e de <= 1) /\
+  (* pit_count_formula_in_unit *)
+  (forall c m k,
+  c <= 1/2 -> (0 <= k <= m)%Z -> 0 <= pit_of_count RR KR c m k <= 1) /\
+  (* pit_count_formula_strict_mono *)
+  (forall c m k1 k2,
+  c <= 1/2 -> (0 <= m)%Z -> (k1 < k2)%Z ->
+  pit_of_count RR KR c m k1 < pit_of_count RR KR c m k2) /\
+  (* pit_cst_capped *)
+  (forall cst,
+  pit_cst RR KR cst <= 1/2 /\ (cst <= 1/2 -> pit_cst RR KR cst = cst)) /\
+  (* the jitter does not change the count when members are farther than 2 EPS
+     from the observation: the count is the number of members below it *)
+  (* pit_count_ignores_jitter *)
+  (forall o dob e de,
+  length de = length e ->
+  Rabs dob <= k_eps KR ->
+  Forall (fun d => Rabs d <= k_eps KR) de ->
+  Forall (fun x => 2 * k_eps KR < Rabs (x - o)) e ->
+  pit_count RR o dob e de = countb (fun x => Rltb x o) e).
+Proof. exact (conj pit_random_in_unit (conj pit_of_count_in_unit (conj pit_of_count_strict_mono (conj pit_cst_le_half pit_count_ignores_jitter)))). Qed.
+Print Assumptions C10_pit_random.
+
+Theorem C10_pit_rank :
+  (* random=False: scipy's rank formula lies in [0,1]; the clip of the repaired
+     code never acts over the reals *)
+  (* pit_rank_in_unit *)
+  (forall o e,
+  e <> [] ->
+  0 <= pit_rank RR KR o e <= 1 /\ pit_rank RR KR o e = pit_rank_noclip RR KR o e) /\
+  (* pit_rank_no_tie *)
+  (forall o e,
+  e <> [] -> Forall (fun x => x <> o) e ->
+  pit_rank RR KR o e = IZR (countb (fun x => Rltb x o) e) / IZR (Z.of_nat (length e))) /\
+  (* pit_rank_strict_mono *)
+  (forall o1 e1 o2 e2,
+  e1 <> [] -> length e1 = length e2 ->
+  Forall (fun x => x <> o1) e1 -> Forall (fun x => x <> o2) e2 ->
+  (countb (fun x => Rltb x o1) e1 < countb (fun x => Rltb x o2) e2)%Z ->
+  pit_rank RR KR o1 e1 < pit_rank RR KR o2 e2) /\
+  (* every value returned by pit (both options, any cst, any censor) *)
+  (* pit_values_in_unit *)
+  (forall random cst censor obs ens dobs dens pits sudo,
+  Forall (fun e => e <> []) ens ->
+  pit RR KR random cst censor obs ens dobs dens = PitOk pits sudo ->
+  Forall (fun p => 0 <= p <= 1) pits).
+Proof. exact (conj pit_rank_in_unit (conj pit_rank_no_tie (conj pit_rank_strict_mono pit_values_in_unit))). Qed.
+Print Assumptions C10_pit_rank.
+
+(* pseudo flag *)
+Theorem C10_pseudo_flag_iff :
+  forall censor o e,
+  is_sudo RR KR censor o e = true <->
+  o < censor + k_eps KR /\ exists x, In x e /\ x < censor + k_eps KR.
+Proof. exact is_sudo_iff. Qed.
+Print Assumptions C10_pseudo_flag_iff.
+
+Theorem C10_cvm_statistic :
+  (* ------------------------------------------------------------------ *)
+  (* Cramer-von Mises                                                    *)
+  (* cvm_stat_textbook *)
+  (forall data s,
+  data <> [] -> Permutation s data -> StronglySorted Rle s ->
+  cvm_stat RR KR data = cvm_textbook s) /\
+  (* cvm_stat_perm_invariant *)
+  (forall data data',
+  Permutation data data' -> cvm_stat RR KR data = cvm_stat RR KR data').
+Proof. exact (conj cvm_stat_textbook cvm_stat_perm_invariant). Qed.
+Print Assumptions C10_cvm_statistic.
+
+Theorem C10_cvm_pvalue :
+  (* linear interpolation with clamping stays within the bounds of the table *)
+  (* interp_in_range *)
+  (forall lo hi x xs ys,
+  length xs = length ys -> ys <> [] ->
+  Forall (fun y => lo <= y <= hi) ys ->
+  StronglySorted Rlt xs ->
+  lo <= interp RR x xs ys <= hi) /\
+  (* cvm_pvalue_in_unit *)
+  (forall nsample qq cols n stat,
+  StronglySorted Rlt qq -> qq <> [] ->
+  Forall (fun c => length c = length qq /\ Forall (fun y => 0 <= y <= 1) c) cols ->
+  (closest_col n nsample < length cols)%nat ->
+  0 <= cvm_pvalue RR nsample qq cols n stat <= 1) /\
+  (* the shipped table (binary64 entries re-read from the zip on every run):
+     abscissae strictly increasing, one column per sample size, every entry in
+     [0,1] - evaluated by vm_compute *)
+  (* cvm_table_checked *)
+  (cvm_table_ok = true) /\
+  (* closest_col_in_table *)
+  (forall n nsample,
+  nsample <> [] -> (closest_col n nsample < length nsample)%nat).
+Proof. exact (conj interp_in_range (conj cvm_pvalue_in_unit (conj cvm_table_checked closest_col_bound))). Qed.
+Print Assumptions C10_cvm_pvalue.
+
+Theorem C10_ad_statistic :
+  (* ------------------------------------------------------------------ *)
+  (* Anderson-Darling                                                    *)
+  (* ad_stat_textbook *)
+  (forall data s,
+  data <> [] -> Forall (fun x => 0 < x < 1) data ->
+  Permutation s data -> StronglySorted Rle s ->
+  ad_stat data = ad_textbook s) /\
+  (* ad_stat_perm_invariant *)
+  (forall data data',
+  Permutation data data' -> ad_stat data = ad_stat data').
+Proof. exact (conj ad_stat_textbook ad_stat_perm_invariant). Qed.
+Print Assumptions C10_ad_statistic.
+
+Theorem C10_adtest_input_checks :
+  (* ADtest accepts exactly arrays of numbers in [0,1] in non-decreasing order *)
+  (* adtest_check_spec *)
+  (forall l,
+  adtest_check RN KN l = None <-> Forall ad_value_ok l /\ nondecreasing_from AD_PREV0_R l) /\
+  (* values outside [0,1] and NaN are rejected wherever they stand, before and
+     after the sort of c_ad_test *)
+  (* adtest_rejects_bad_value *)
+  (forall l x,
+  In x l -> ~ ad_value_ok x -> adtest_check RN KN l <> None) /\
+  (* ad_test_rejects_bad_value *)
+  (forall l x,
+  In x l -> ~ ad_value_ok x -> ad_test_check RN KN l <> None) /\
+  (* adtest_rejects_unsorted *)
+  (forall l1 a b l2,
+  b < a -> adtest_check RN KN (l1 ++ Some a :: Some b :: l2) <> None) /\
+  (* samples inside [0,1] are accepted by c_ad_test in any order *)
+  (* ad_test_accepts_unit_sample *)
+  (forall data : list R,
+  Forall (fun v => 0 <= v <= 1) data ->
+  ad_test_check RN KN (map Some data) = None).
+Proof. exact (conj adtest_check_spec (conj adtest_rejects_bad_value (conj ad_test_rejects_bad_value (conj adtest_rejects_unsorted ad_test_accepts_unit_sample)))). Qed.
+Print Assumptions C10_adtest_input_checks.
+
+(* p-value of the repaired code *)
+Theorem C10_ad_pvalue_in_unit :
+  forall n z, 0 <= ad_pvalue n z <= 1.
+Proof. exact ad_pvalue_in_unit. Qed.
+Print Assumptions C10_ad_pvalue_in_unit.
+
+(* p-value of the pinned code: above 1 for the ten mid-points (i-1/2)/10 *)
+Theorem C10_ad_pvalue_noclip_refuted :
+  exists data, Forall (fun x => 0 < x < 1) data /\
+               1 < ad_pvalue_noclip (INR (length data)) (ad_stat data).
+Proof. exact ad_pvalue_noclip_refuted. Qed.
+Print Assumptions C10_ad_pvalue_noclip_refuted.
+
+Example C10_binary64_refutations :
+  (* the pinned scan (sentinels value+1) is wrong when eps > 1 or beyond 2^53:
+     binary64 evaluation of the old model variant *)
+  (* sentinel_scan_refuted *)
+  ((PrimFloat.eqb (pairF_sentinel F64 KF 2 [0x1p+3] [0x1p+3]) (-1) = true /\
+   PrimFloat.eqb (pairF F64 KF 2 [0x1p+3] [0x1p+3]) 0.5 = true /\
+   PrimFloat.eqb (pairF_sentinel F64 KF 0x1p-20 [0x1p+62] [0x1p+61]) (-1) = true /\
+   PrimFloat.eqb (pairF F64 KF 0x1p-20 [0x1p+62] [0x1p+61]) 1 = true)%float) /\
+  (* in binary64 the unclipped rank formula exceeds 1 (pinned code), the clipped
+     one does not *)
+  (* pit_rank_noclip_refuted *)
+  (PrimFloat.ltb 1%float (pit_rank_noclip F64 KF 11%float eleven_below) = true /\
+  PrimFloat.eqb (pit_rank F64 KF 11%float eleven_below) 1%float = true).
+Proof. exact (conj sentinel_scan_wrong_F64 pit_rank_noclip_exceeds_one_F64). Qed.
+Print Assumptions C10_binary64_refutations.
+
+Example C10_nonvacuous :
+  (* dscore_nonvacuous *)
+  ((2 <= length [0; 1; 2])%nat /\
+  0 < sdot (centred RR [0; 1; 2]) (centred RR [0; 1; 2]) /\
+  0 < sdot (centred RR [1; 5/2; 5/2]) (centred RR [1; 5/2; 5/2])) /\
+  (* ties inside and across the ensembles *)
+  (* F_nonvacuous *)
+  (0 < 1 / 1000000 /\ [1; 2; 2] <> [] /\ separated (1 / 1000000) ([1; 2; 2] ++ [2; 3; 1]) /\
+  wm_sum [1; 2; 2] [2; 3; 1] = 7 / 2) /\
+  (* pit_jitter_nonvacuous *)
+  (length [1 / 20000000000; - (1 / 10000000000)] = length [1; 3] /\
+  Rabs (1 / 30000000000) <= k_eps KR /\
+  Forall (fun d => Rabs d <= k_eps KR) [1 / 20000000000; - (1 / 10000000000)] /\
+  Forall (fun x => 2 * k_eps KR < Rabs (x - 2)) [1; 3]) /\
+  (* cvm_nonvacuous *)
+  ([3/4; 1/4; 1/2] <> [] /\ Permutation [1/4; 1/2; 3/4] [3/4; 1/4; 1/2] /\
+  StronglySorted Rle [1/4; 1/2; 3/4]) /\
+  (* cvm_pvalue_nonvacuous *)
+  (StronglySorted Rlt [0; 1/2; 1] /\ [0; 1/2; 1] <> [] /\
+  Forall (fun c => length c = length [0; 1/2; 1] /\ Forall (fun y => 0 <= y <= 1) c)
+         [[1; 1/2; 0]; [1; 1/4; 1/8]] /\
+  (closest_col 7 [5%Z; 10%Z] < length [[1; 1/2; 0]; [1; 1/4; 1/8]])%nat) /\
+  (* ad_nonvacuous *)
+  ([3/4; 1/4; 1/2] <> [] /\ Forall (fun x => 0 < x < 1) [3/4; 1/4; 1/2] /\
+  Permutation [1/4; 1/2; 3/4] [3/4; 1/4; 1/2] /\ StronglySorted Rle [1/4; 1/2; 3/4]) /\
+  (* ad_reject_nonvacuous *)
+  (In None [Some (1/2); None; Some (1/4)] /\ ~ ad_value_ok None /\
+  In (Some (3/2)) [Some (3/2)] /\ ~ ad_value_ok (Some (3/2)) /\
+  In (Some (-1/1000)) [Some (-1/1000)] /\ ~ ad_value_ok (Some (-1/1000))).
+Proof. exact (conj dscore_hyps_example (conj F_hyps_example (conj pit_jitter_example (conj cvm_hyps_example (conj cvm_pvalue_hyps_example (conj ad_hyps_example ad_reject_example)))))). Qed.
+Print Assumptions C10_nonvacuous.
